@@ -12,6 +12,9 @@ func (p *Program) Print() string {
 	sb.WriteString("package main\n\nimport (\n\t\"strconv\"\n\t\"strings\"\n)\n\n")
 	sb.WriteString("var _ = strconv.Itoa\nvar _ = strings.ToUpper\n\n")
 	for i, c := range p.Comps {
+		if c.Code {
+			continue
+		}
 		if c.Callee {
 			fmt.Fprintf(&sb, "templ %s(a A, p string) {", c.Name)
 		} else {
